@@ -1,9 +1,395 @@
-//! C14 — (stub; not built yet)
+//! C14 — VnBest and VnFirst never worsen the load gap.
+//!
+//! op:  `best|first <i64|u64|f64> <threads> <n> <w…> <m> <ids…>`
+//!      (weights are integers in every weight type; `f64` weights are the same integers
+//!      converted exactly; `threads` = size of the rayon pool the call runs in)
+//! out: `ok <returned count> | <ids afterwards>` | `negative` | `lenmismatch` | `panic …` | `hang`
 
 use crate::common::*;
+use coupe::Partition as _;
+use std::collections::HashMap;
+use std::sync::{Arc, Mutex, OnceLock};
 
-pub fn generate(_ctx: &mut Ctx) {}
+type Pool = Arc<coupe::rayon::ThreadPool>;
+
+/// Pools are built once per size (building one per case would dominate the run time).
+fn pool(threads: usize) -> Pool {
+    static POOLS: OnceLock<Mutex<HashMap<usize, Pool>>> = OnceLock::new();
+    let m = POOLS.get_or_init(|| Mutex::new(HashMap::new()));
+    let mut g = m.lock().unwrap();
+    g.entry(threads)
+        .or_insert_with(|| {
+            Arc::new(
+                coupe::rayon::ThreadPoolBuilder::new()
+                    .num_threads(threads.max(1))
+                    .build()
+                    .expect("pool"),
+            )
+        })
+        .clone()
+}
+
+const LIMIT: i64 = 1 << 53;
+
+fn format_op(algo: &str, ty: &str, threads: usize, ws: &[i64], ids: &[usize]) -> String {
+    format!("{} {} {} {} {} {} {}", algo, ty, threads, ws.len(), join(ws), ids.len(), join(ids))
+        .split_whitespace()
+        .collect::<Vec<_>>()
+        .join(" ")
+}
+
+struct Op {
+    algo: String,
+    ty: String,
+    threads: usize,
+    ws: Vec<i64>,
+    ids: Vec<usize>,
+}
+
+fn parse_op(op: &str) -> Option<Op> {
+    let mut it = op.split_whitespace();
+    let algo = it.next()?.to_string();
+    if algo != "best" && algo != "first" {
+        return None;
+    }
+    let ty = it.next()?.to_string();
+    if ty != "i64" && ty != "u64" && ty != "f64" {
+        return None;
+    }
+    let threads: usize = it.next()?.parse().ok()?;
+    let n: usize = it.next()?.parse().ok()?;
+    let mut ws = Vec::with_capacity(n.min(1 << 16));
+    for _ in 0..n {
+        let w: i64 = it.next()?.parse().ok()?;
+        if ty == "u64" && w < 0 {
+            return None;
+        }
+        ws.push(w);
+    }
+    let m: usize = it.next()?.parse().ok()?;
+    let mut ids = Vec::with_capacity(m.min(1 << 16));
+    for _ in 0..m {
+        ids.push(it.next()?.parse().ok()?);
+    }
+    if it.next().is_some() {
+        return None;
+    }
+    Some(Op { algo, ty, threads, ws, ids })
+}
+
+/// Runs the real implementation; returns the result and the array afterwards.
+fn run_impl(o: &Op, watchdog: bool) -> Caught<(Result<usize, coupe::Error>, Vec<usize>)> {
+    let p = pool(o.threads);
+    let algo_best = o.algo == "best";
+    let ty = o.ty.clone();
+    let ws = o.ws.clone();
+    let mut ids = o.ids.clone();
+    let work = move || {
+        let r = match ty.as_str() {
+            "i64" => {
+                if algo_best {
+                    coupe::VnBest.partition(&mut ids, ws.iter().cloned())
+                } else {
+                    coupe::VnFirst.partition(&mut ids, &ws[..])
+                }
+            }
+            "u64" => {
+                let w: Vec<u64> = ws.iter().map(|&x| x as u64).collect();
+                if algo_best {
+                    coupe::VnBest.partition(&mut ids, w)
+                } else {
+                    coupe::VnFirst.partition(&mut ids, &w[..])
+                }
+            }
+            _ => {
+                let w: Vec<f64> = ws.iter().map(|&x| x as f64).collect();
+                if algo_best {
+                    coupe::VnBest.partition(&mut ids, w)
+                } else {
+                    coupe::VnFirst.partition(&mut ids, &w[..])
+                }
+            }
+        };
+        (r, ids)
+    };
+    // already on a worker of a pool of the requested size (exhaustive sweep): call directly
+    let in_pool = coupe::rayon::current_thread_index().is_some()
+        && coupe::rayon::current_num_threads() == o.threads.max(1);
+    if in_pool {
+        catch(work)
+    } else if watchdog {
+        catch_timeout(20, move || p.install(work))
+    } else {
+        catch(move || p.install(work))
+    }
+}
+
+/// Naive part loads for `k` parts (ids ≥ k are ignored – reported separately).
+fn loads(ws: &[i64], ids: &[usize], k: usize) -> Vec<i128> {
+    let mut l = vec![0i128; k];
+    for (w, &p) in ws.iter().zip(ids) {
+        if p < k {
+            l[p] += *w as i128;
+        }
+    }
+    l
+}
+
+fn gap(l: &[i128]) -> i128 {
+    let mut mn = l[0];
+    let mut mx = l[0];
+    for &x in l {
+        if x < mn {
+            mn = x;
+        }
+        if x > mx {
+            mx = x;
+        }
+    }
+    mx - mn
+}
 
 pub fn run_op(ctx: &mut Ctx, op: &str) {
-    ctx.record(op.to_string(), "bad-op".into(), false);
+    run_op_w(ctx, op, true)
+}
+
+fn run_op_w(ctx: &mut Ctx, op: &str, watchdog: bool) {
+    let Some(o) = parse_op(op) else {
+        ctx.record(op.to_string(), "bad-op".into(), false);
+        return;
+    };
+    if o.ws.iter().any(|w| w.abs() >= LIMIT) {
+        // outside the exactness contract (f64 conversion would round)
+        ctx.record(op.to_string(), "bad-op".into(), false);
+        return;
+    }
+    let res = run_impl(&o, watchdog);
+    let len_ok = o.ws.len() == o.ids.len();
+    let k = 1 + o.ids.iter().copied().max().unwrap_or(0);
+    let neg = o.ws.iter().position(|&w| w < 0);
+    let total: i128 = o.ws.iter().map(|&w| w as i128).sum();
+    let best = o.algo == "best";
+    let nontrivial = len_ok && k >= 2 && o.ws.len() >= 2 && (neg.is_some() || total > 0);
+    let mut verdict: Option<(&str, String)> = None;
+    let out = match res {
+        Caught::Ok((Ok(count), ids)) => {
+            if !len_ok {
+                verdict = Some(("vn-len-mismatch-ok", "Ok despite a length mismatch".into()));
+            } else if best && neg.is_some() {
+                verdict = Some((
+                    "vnbest-negative-accepted",
+                    format!("Ok({}) although weight #{} is negative", count, neg.unwrap()),
+                ));
+            } else if ids.len() != o.ids.len() {
+                verdict = Some(("vn-length-changed", "array length changed".into()));
+            } else if let Some(bad) = ids.iter().find(|&&p| p >= k) {
+                verdict = Some(("vn-id-out-of-range", format!("part id {} with {} parts", bad, k)));
+            } else if neg.is_none() {
+                // the property: gap not larger, total only redistributed
+                let before = loads(&o.ws, &o.ids, k);
+                let after = loads(&o.ws, &ids, k);
+                let (gb, ga) = (gap(&before), gap(&after));
+                let sa: i128 = after.iter().sum();
+                if ga > gb {
+                    verdict = Some((
+                        "vn-gap-worse",
+                        format!("gap {} -> {} (loads {:?} -> {:?})", gb, ga, before, after),
+                    ));
+                } else if sa != total {
+                    verdict = Some(("vn-total-changed", format!("total {} -> {}", total, sa)));
+                }
+                let moved = ids.iter().zip(&o.ids).filter(|(a, b)| a != b).count();
+                ctx.count(&format!(
+                    "{}_moved_{}",
+                    o.algo,
+                    if moved >= 2 { "2+".to_string() } else { moved.to_string() }
+                ));
+                if nontrivial {
+                    ctx.count(if ga < gb { "gap_decreased" } else { "gap_unchanged" });
+                }
+            } else {
+                ctx.count("first_negative_weights_outside_property");
+            }
+            format!("ok {} | {}", count, join(&ids))
+        }
+        Caught::Ok((Err(coupe::Error::NegativeValues), ids)) => {
+            if !best || neg.is_none() {
+                verdict = Some(("vn-spurious-negative", "NegativeValues without a negative weight".into()));
+            } else if ids != o.ids {
+                verdict = Some(("vnbest-negative-wrote", "array modified before NegativeValues".into()));
+            }
+            "negative".to_string()
+        }
+        Caught::Ok((Err(coupe::Error::InputLenMismatch { .. }), ids)) => {
+            if len_ok {
+                verdict = Some(("vn-spurious-lenmismatch", "InputLenMismatch on matching lengths".into()));
+            } else if ids != o.ids {
+                verdict = Some(("vn-lenmismatch-wrote", "array modified before InputLenMismatch".into()));
+            }
+            "lenmismatch".to_string()
+        }
+        Caught::Ok((Err(e), _)) => {
+            verdict = Some(("vn-unexpected-error", format!("{:?}", e)));
+            format!("err {:?}", e)
+        }
+        Caught::Panic(m) => {
+            let sig = panic_sig(&m);
+            verdict = Some(("panic", format!("{} [{}]", m, sig)));
+            format!("panic {}", m)
+        }
+        Caught::Hang => {
+            verdict = Some(("hang", "no answer within 20 s".into()));
+            "hang".into()
+        }
+    };
+    ctx.count(&format!("{}_{}", o.algo, out.split(' ').next().unwrap_or("")));
+    ctx.count(&format!("type_{}", o.ty));
+    ctx.count(&format!("threads_{}", o.threads));
+    if len_ok {
+        ctx.count(&format!("parts_{}", k.min(9)));
+    }
+    let idx = ctx.record(op.to_string(), out, nontrivial);
+    if let Some((sig, what)) = verdict {
+        ctx.fail(idx, sig, what);
+    }
+}
+
+const TYPES: [&str; 3] = ["i64", "u64", "f64"];
+const ALGOS: [&str; 2] = ["best", "first"];
+
+/// Odometer over `{0..base}^len`; returns false after the last vector.
+fn next_vec(v: &mut [usize], base: usize) -> bool {
+    for x in v.iter_mut() {
+        if *x + 1 < base {
+            *x += 1;
+            return true;
+        }
+        *x = 0;
+    }
+    false
+}
+
+fn exhaustive_pass(ctx: &mut Ctx, maxlen: usize, pass_threads: usize) {
+    let mut case_no = 0usize;
+    for len in 0..=maxlen {
+        let mut w = vec![0usize; len];
+        loop {
+            let ws: Vec<i64> = w.iter().map(|&x| x as i64).collect();
+            let mut ids = vec![0usize; len];
+            loop {
+                for algo in ALGOS {
+                    let ty = TYPES[(case_no / 2) % 3];
+                    let threads = if (case_no / 6) % 2 == 0 { 1 } else { 4 };
+                    if len <= 3 {
+                        // tiny: every type in both pool sizes
+                        for t in TYPES {
+                            run_op_w(ctx, &format_op(algo, t, pass_threads, &ws, &ids), false);
+                        }
+                    } else if threads == pass_threads {
+                        run_op_w(ctx, &format_op(algo, ty, threads, &ws, &ids), false);
+                    }
+                    case_no += 1;
+                }
+                if !next_vec(&mut ids, 3) {
+                    break;
+                }
+            }
+            if !next_vec(&mut w, 4) {
+                break;
+            }
+        }
+    }
+}
+
+pub fn generate(ctx: &mut Ctx) {
+    // ---- exhaustive sub-space: weights 0..=3, ids 0..=2, every length up to maxlen,
+    //      both algorithms on every case; weight type and pool size rotate with the case number
+    let maxlen = ctx.budget(5, 6);
+    // one pass per pool size, each run from inside the pool (one hand-over per pass, not per case)
+    for pass_threads in [1usize, 4] {
+        let pl = pool(pass_threads);
+        let ctx_ref = &mut *ctx;
+        pl.install(move || exhaustive_pass(ctx_ref, maxlen, pass_threads));
+    }
+    ctx.notes.push(format!(
+        "exhaustive sub-space: every weight vector over 0..=3 x every id vector over 0..=2 of length 0..={}, both algorithms (weight type and pool size rotate; all three types for length <= 3)",
+        maxlen
+    ));
+
+    // ---- random valid inputs, 2..8 parts, several shapes
+    let n = ctx.budget(6000, 150_000);
+    for _ in 0..n {
+        let parts = 2 + ctx.rng.usize(7);
+        let len = match ctx.rng.usize(10) {
+            0 => 1 + ctx.rng.usize(3),
+            1..=6 => 2 + ctx.rng.usize(14),
+            _ => 10 + ctx.rng.usize(if ctx.quick() { 30 } else { 90 }),
+        };
+        let shape = ctx.rng.usize(8);
+        let mut ws: Vec<i64> = (0..len)
+            .map(|_| match shape {
+                0 => ctx.rng.range(0, 9),
+                1 => ctx.rng.range(0, 1000),
+                2 => ctx.rng.range(1, 3),                  // ties
+                3 => ctx.rng.range(0, 1 << 40),            // huge (sums stay < 2^53)
+                4 => ctx.rng.range(0, 50),                 // + one dominant, below
+                5 => if ctx.rng.chance(2, 3) { 0 } else { ctx.rng.range(1, 5) }, // zeros
+                6 => 7,                                    // all equal
+                _ => ctx.rng.range(0, 100),
+            })
+            .collect();
+        if shape == 4 {
+            let j = ctx.rng.usize(len);
+            ws[j] = ctx.rng.range(200, 5000);
+        }
+        let id_shape = ctx.rng.usize(5);
+        let ids: Vec<usize> = (0..len)
+            .map(|j| match id_shape {
+                0 => ctx.rng.usize(parts),                 // uniform
+                1 => if ctx.rng.chance(3, 4) { 0 } else { ctx.rng.usize(parts) }, // one heavy part
+                2 => j % parts,                            // round robin (balanced counts)
+                3 => if ctx.rng.chance(1, 2) { parts - 1 } else { 0 }, // empty middle parts
+                _ => ctx.rng.usize(parts),
+            })
+            .collect();
+        let algo = *ctx.rng.pick(&ALGOS);
+        let ty = *ctx.rng.pick(&TYPES);
+        let threads = if ctx.rng.chance(1, 2) { 1 } else { 4 };
+        ctx.count(&format!("random_wshape_{}", shape));
+        ctx.count(&format!("random_idshape_{}", id_shape));
+        run_op(ctx, &format_op(algo, ty, threads, &ws, &ids));
+    }
+
+    // ---- negative weights: every position of a single negative weight, both signed types
+    let n = ctx.budget(150, 3000);
+    for _ in 0..n {
+        let parts = 1 + ctx.rng.usize(4);
+        let len = 1 + ctx.rng.usize(7);
+        let ws0: Vec<i64> = (0..len).map(|_| ctx.rng.range(0, 9)).collect();
+        let ids: Vec<usize> = (0..len).map(|_| ctx.rng.usize(parts)).collect();
+        let ty = if ctx.rng.chance(1, 2) { "i64" } else { "f64" };
+        let threads = if ctx.rng.chance(1, 2) { 1 } else { 4 };
+        let v = -ctx.rng.range(1, 9);
+        for pos in 0..len {
+            let mut ws = ws0.clone();
+            ws[pos] = v;
+            ctx.count("negative_stream");
+            for algo in ALGOS {
+                run_op(ctx, &format_op(algo, ty, threads, &ws, &ids));
+            }
+        }
+    }
+
+    // ---- malformed: length mismatches (with and without negative weights), empty sides
+    for _ in 0..ctx.budget(100, 1000) {
+        let len = ctx.rng.usize(6);
+        let plen = ctx.rng.usize(6);
+        let lo = if ctx.rng.chance(1, 4) { -3 } else { 0 };
+        let ty = *ctx.rng.pick(&TYPES);
+        let ws: Vec<i64> = (0..len).map(|_| ctx.rng.range(if ty == "u64" { 0 } else { lo }, 9)).collect();
+        let ids: Vec<usize> = (0..plen).map(|_| ctx.rng.usize(3)).collect();
+        let algo = *ctx.rng.pick(&ALGOS);
+        ctx.count("malformed_stream");
+        run_op(ctx, &format_op(algo, ty, 1, &ws, &ids));
+    }
 }
